@@ -237,7 +237,7 @@ Proof.
   - destruct (load_current_user_HU _ _ _ _ H E1) as [-> [u ->]]. clear E1 NP. cbn beta iota in K.
     assert (G : npc (if negb (is_locked E u) then ret true
                      else log [u_pid u; q_path (e_req E)] ;;;
-                          try (redirect E (ro_fail p_lock_notok)) (fun _ => ret tt) ;;; ret false)) by npc_go.
+                          try (redirect E (ro_fail (p_lock_notok_of (e_cfg E)))) (fun _ => ret tt) ;;; ret false)) by npc_go.
     exact (G _ _ _ H K).
   - destruct (load_current_user_HU _ _ _ _ H E1) as [_ [u Hr]]. discriminate Hr.
 Qed.
@@ -247,7 +247,7 @@ Proof.
   - destruct (load_current_user_HU _ _ _ _ H E1) as [-> [u ->]]. clear E1 NP. cbn beta iota in K.
     assert (G : npc (if u_confirmed u then ret true
                      else log [u_pid u; q_path (e_req E)] ;;;
-                          try (redirect E (ro_fail p_confirm_notok)) (fun _ => ret tt) ;;; ret false)) by npc_go.
+                          try (redirect E (ro_fail (p_confirm_notok_of (e_cfg E)))) (fun _ => ret tt) ;;; ret false)) by npc_go.
     exact (G _ _ _ H K).
   - destruct (load_current_user_HU _ _ _ _ H E1) as [_ [u Hr]]. discriminate Hr.
 Qed.
@@ -264,7 +264,10 @@ Proof.
   unfold app_stack.
   apply np_bind; [destruct e; [apply np_expire_mw|apply np_ret]|intros sess].
   cbv zeta. set (E' := with_sess E sess).
-  apply np_bind; [destruct r; [apply np_remember_mw|apply np_ret]|intros _].
+  apply np_bind; [destruct r; [|apply np_ret]|intros sess2].
+  { apply np_bind; [apply np_remember_mw|intros _]. unfold remembered_view.
+    apply np_bind; [apply np_get_h|intros h0]. destruct (h_cpid h0); apply np_ret. }
+  clear E'. set (E' := with_sess E sess2).
   apply np_bind_post; [apply np_auth_middleware|].
   intros ok h h1 Ha rr h' Eq. destruct ok; cbn [negb] in Eq; [|inversion Eq; discriminate].
   apply auth_middleware_admits in Ha as (_ & (u & Hu) & _).
